@@ -629,6 +629,30 @@ let comb_explore () =
      done
    with End_of_file -> ())
 
+
+(* ---- C09: observe_on ---- *)
+let oo_explore () =
+  (try
+     while true do
+       let line = input_line stdin in
+       if String.length line > 0 && line.[0] = '(' then begin
+         match parse_sx line with
+         | [L [A "oo"; n; term; unsub]] ->
+             let n = atom_nat n and term = int_of_nat (atom_nat term) = 1 and unsub = int_of_nat (atom_nat unsub) = 1 in
+             let key (c : ocfg) = Marshal.to_string c [] in
+             let acts = [OEmit; OWorker QCheck; ODeliver; OAfter] @ (if unsub then [OUnsub] else []) in
+             (* a sleeping worker is only woken by a notification (post / stop), which the queue model applies itself:
+                the explicit QWake stands for a spurious wake-up, leads to no new log and is left out here *)
+             let succ c = let k = key c in List.filter (fun c' -> key c' <> k) (List.map (fun a -> ostep c a) acts) in
+             let (finals, complete) = explore key succ (oinit n term) 2000000 in
+             if not complete then failwith "oo-explore: state limit";
+             let logs = List.sort_uniq compare (List.map (fun (c : ocfg) -> String.concat " " (List.map (fun v -> string_of_int (int_of_nat v)) c.o_log)) finals) in
+             Printf.printf "(logs %s)\n" (String.concat " " (List.map (fun l -> "(" ^ l ^ ")") logs))
+         | _ -> print_endline "(error \"bad oo\")"
+       end
+     done
+   with End_of_file -> ())
+
 let () =
   match Array.to_list Sys.argv with
   | _ :: "run-seq" :: fuel :: _ -> run_seq (int_of_string fuel)
@@ -639,5 +663,6 @@ let () =
   | _ :: "tovec-explore" :: _ -> tovec_explore ()
   | _ :: "subj-explore" :: _ -> subj_explore ()
   | _ :: "comb-explore" :: _ -> comb_explore ()
+  | _ :: "oo-explore" :: _ -> oo_explore ()
   | _ :: "subj-oracle" :: _ -> subj_oracle_cmd ()
   | _ -> prerr_endline "usage: driver run-seq FUEL < scenarios"; exit 2
